@@ -302,7 +302,7 @@ Section Session.
               else Err (EPy "AssertionError")
             else Ok ([], s)
         | Some cu_end_offset =>
-            if pos <? cu_end_offset then
+            if in_block pos cu_end_offset offs then
               let next_offset := match offs with o :: _ => o | [] => cu_end_offset end in
               if next_offset =? pos then
                 let bs := at_pos stream pos in
